@@ -87,11 +87,7 @@ Collect(ty, frontier, seen, cands) ==
            seen2 == seen \cup { fr[i].t : i \in DOMAIN fr } IN
        Collect(ty, r.next, seen2, cands \o r.cands)
 
-Cands(ty) == Collect(ty, << [t |-> 1, path |-> <<>>] >>, {}, <<>>)
-
-(* Go counts a type reached k times at the same depth and records each of its fields ONCE with multiplicity k; a field *)
-(* of such a type therefore conflicts with itself: it can never win, tagged or not.                                      *)
-RouteCount(cs, c) == Cardinality({ i \in DOMAIN cs : cs[i].name = c.name /\ cs[i].depth = c.depth })
+Cands(ty, root) == Collect(ty, << [t |-> root, path |-> <<>>] >>, {}, <<>>)
 
 Wins(cs, i) ==
   LET c == cs[i]
@@ -111,10 +107,12 @@ RECURSIVE SortByPath(_)
 SortByPath(S) == IF S = {} THEN <<>>
                  ELSE LET m == CHOOSE x \in S : \A y \in S : x = y \/ PathLess(x.path, y.path) IN <<m>> \o SortByPath(S \ {m})
 
-Members(ty) ==
-  LET cs == Cands(ty) IN SortByPath({ cs[i] : i \in { j \in DOMAIN cs : Wins(cs, j) } })
+MembersOf(ty, root) ==
+  LET cs == Cands(ty, root) IN SortByPath({ cs[i] : i \in { j \in DOMAIN cs : Wins(cs, j) } })
 
 -----------------------------------------------------------------------------
+Members(ty) == MembersOf(ty, 1)
+
 (* laws *)
 NamesUnique == Complete => LET m == Members(types) IN \A i, j \in DOMAIN m : i # j => m[i].name # m[j].name
 (* a direct field of T1 always beats anything promoted *)
@@ -126,5 +124,5 @@ DirectWins == Complete => \A i \in DOMAIN types[1] :
 HiddenStayHidden == Complete => \A k \in DOMAIN Members(types) :
    LET p == Members(types)[k].path IN Len(p) = 1 => types[1][p[1]].tag # "-"
 
-Export == Complete => PrintT(<<"PROGRAM", ToJson([types |-> types, members |-> Members(types)])>>)
+Export == Complete => PrintT(<<"PROGRAM", ToJson([types |-> types, members |-> [k \in 1..3 |-> MembersOf(types, k)]])>>)
 =============================================================================
